@@ -4,7 +4,9 @@
 
 #[cfg(kani)]
 mod globals;
-#[cfg(kani)]
+// the arithmetic / float-comparison harnesses are many; they are compiled only when asked for,
+// so that the quick harnesses of C10 / C22 do not pay for their code generation
+#[cfg(all(kani, feature = "arith"))]
 mod arith;
-#[cfg(kani)]
+#[cfg(all(kani, feature = "cmpf"))]
 mod cmpf;
